@@ -128,7 +128,7 @@ class Check(BaseCheck):
         s = float(rng.choice([0.25, 0.5, 2.0, 3.0, 4.0]))
         variants.append(("scaling by %g" % s, s * v, t, 1.0 / s ** 2))
         if kind == "tet":        # the tetra kernel has no absolute degeneracy threshold: the law holds for very small / large meshes too
-            for s2 in (1e-5, 1e3):
+            for s2 in (1e-6, 1e3):
                 variants.append(("scaling by %g" % s2, s2 * v, t, 1.0 / s2 ** 2))
         for name, vv, tt, fac in variants:
             try:
